@@ -139,6 +139,31 @@ def classify_completed_stop(c, pieces, err):
     return {}
 
 
+def dnp_span_cases(pool):
+    """An undefined element substituted INSIDE a 221YYY (data not present) span: the descriptor is still reached
+    and must still be reported, the message skipped."""
+    import struct
+    cases = []
+    good = [d for d in pool if d.get('crafted') and 'dnp' not in d['name']][:2]
+    for d in [x for x in pool if x.get('crafted') and 'dnp' in x['name']]:
+        b = d['bytes']
+        so = S.section_offsets(b)
+        for k in (2, 3):                      # 012001 / 010004 of [001015 221003 012001 010004 001001 002001]
+            for code in (0x3FFF, 0x0CFA):     # 063255, 012250: classes outside 1-9 and 31
+                bad = bytearray(b)
+                bad[so['o3'] + 7 + 2 * k: so['o3'] + 9 + 2 * k] = struct.pack('>H', code)
+                msgs = [good[0]['bytes'], bytes(bad), good[1]['bytes']]
+                stream = b''.join(msgs)
+                starts = [0, len(msgs[0]), len(msgs[0]) + len(msgs[1])]
+                for io_, coe in ((False, True), (False, False)):
+                    exp, err = ([msgs[0], msgs[2]], None) if coe else ([msgs[0]], 'lib')
+                    cases.append({'name': 'dnp-span-%s-%d-%04x' % (d['name'], k, code), 'stream': stream, 'starts': starts,
+                                  'info_only': io_, 'continue_on_error': coe, 'filter': None, 'expect': exp,
+                                  'expect_err': err, 'tags': ['damaged', 'undefined-element-inside-221-span'],
+                                  'damage_kinds': ['undef-element'], 'damaged': [False, True, False], 'in_domain': False})
+    return cases
+
+
 def run(ctx):
     ctx.rule = ('fault enumeration: (1) every truncation point (every byte; sampled above 400 bytes) of generated messages '
                 '(templates of C01, compressed or not): the implementation must raise a PyBufrKitError, never succeed and never '
@@ -159,6 +184,7 @@ def run(ctx):
     with S.quiet():
         pool, _files = S.build_pool(ctx)
         dmg = S.make_damaged_cases(ctx, pool, ctx.n(40, 900))
+        dmg += dnp_span_cases(pool)
         S.run_stream_cases(ctx, dmg, kind='C12-stream', enforce_expect=True, classify=classify_completed_stop)
     cli_sample(ctx, pool)
     ctx.partial = ['truncation inside sections 0-3/5 is checked on the implementation (framing model: C04)']
